@@ -56,5 +56,11 @@ class UpdateNodeAttrs(BasicAction):
     def _apply(self) -> None:
         """Set new attributes"""
         for attr, value in self.new_attrs.items():
-            self.tracks._set_node_attr(self.node, attr, value)
+            if value is None:
+                # None stands for "attribute not set" (this is what get_node_attr returns
+                # for a missing attribute, e.g. when the update of a new attribute is
+                # undone): remove the attribute instead of storing None
+                self.tracks.graph.nodes[self.node].pop(attr, None)
+            else:
+                self.tracks._set_node_attr(self.node, attr, value)
         self.tracks.notify_annotators(self)
